@@ -93,7 +93,27 @@ def _reduce(fn, seq, *init):
     return _functools.reduce(fn, list(seq), *init)
 
 
-DOTTED_CALLS = {'functools.reduce': _reduce}
+def _ensure_binary(v, encoding='utf-8', errors='strict'):
+    if isinstance(v, str):
+        return v.encode(encoding, errors)          # UnicodeEncodeError is part of the evaluated behaviour
+    if isinstance(v, (bytes, bytearray)):
+        return bytes(v)
+    raise Unsupported('six.ensure_binary of %s' % type(v).__name__)
+
+
+def _ensure_text(v, encoding='utf-8', errors='strict'):
+    if isinstance(v, (bytes, bytearray)):
+        return bytes(v).decode(encoding, errors)
+    if isinstance(v, str):
+        return v
+    raise Unsupported('six.ensure_text of %s' % type(v).__name__)
+
+
+# six on Python 3 (the interpreter the repository runs under): fixed meanings
+DOTTED_CALLS = {'functools.reduce': _reduce, 'six.iterbytes': lambda b: list(bytes(b)), 'six.indexbytes': lambda b, i: bytes(b)[i],
+                'six.int2byte': lambda i: bytes([i]), 'six.ensure_binary': _ensure_binary, 'six.ensure_text': _ensure_text,
+                'six.ensure_str': _ensure_text, 'six.b': lambda s: s.encode('latin-1'), 'six.u': lambda s: s,
+                'six.text_type': str, 'six.binary_type': bytes}
 TYPE_VALUES = {'slice': slice, 'int': int, 'str': str, 'bytes': bytes, 'bytearray': bytearray, 'bool': bool, 'list': list, 'tuple': tuple, 'dict': dict, 'set': set}
 
 
@@ -277,6 +297,8 @@ class Evaluator:
         if (d in DOTTED_CALLS or d in DOTTED) and d.split('.')[0] not in self.env:
             try:
                 return (DOTTED_CALLS.get(d) or DOTTED[d])(*args, **kwargs)
+            except (UnicodeError, IndexError):
+                raise
             except TypeError as e:
                 raise Unsupported('%s: %s' % (ast.unparse(n)[:60], e))
         if isinstance(n.func, ast.Attribute) and isinstance(n.func.value, ast.Name) and n.func.value.id not in self.env and \
@@ -544,6 +566,12 @@ def class_call_hook(cls, extra=None, model=None):
                 if m is None or getattr(m.module, 'external', False):
                     raise Unsupported('unknown method %s.%s' % (getattr(target, 'name', '?'), f.attr))
                 return call_method(target, m, n, ev, bound)
+            if isinstance(f, ast.Name) and model is not None and f.id not in ev.env and f.id not in BUILTINS:
+                # a module level function of the repository (imported helper): evaluated from its own statements
+                r = model.resolve_name(module, f.id)
+                if r is not None and hasattr(r, 'node') and isinstance(getattr(r, 'node', None), ast.FunctionDef) and getattr(r, 'cls', None) is None \
+                        and not getattr(r.module, 'external', False):
+                    return call_method(owner, r, n, ev, None)
             return NotImplemented
         return hook
     top = make(cls, cls.module)
